@@ -183,7 +183,18 @@ pub fn statement_cases() -> Vec<Case> {
 }
 
 /// the op sequences probed at every node of the play tree
+/// quick tier: three probes per node instead of all (set by run / emit from the tier, so that both
+/// build profiles produce the same transcript)
+static LIGHT_PROBES: std::sync::atomic::AtomicBool = std::sync::atomic::AtomicBool::new(false);
+
 fn probes(prog: &Prog) -> Vec<Vec<Op>> {
+    if LIGHT_PROBES.load(std::sync::atomic::Ordering::Relaxed) {
+        let mut v = vec![vec![Op::LoadFresh, Op::Cont], vec![Op::SwitchFlow("f1".into()), Op::Cont, Op::SwitchDefault, Op::Cont]];
+        if let Some(k) = prog.plain_knots.first() {
+            v.push(vec![Op::ChoosePath(k.clone(), true), Op::Cont]);
+        }
+        return v;
+    }
     let mut v = vec![vec![Op::Save], vec![Op::LoadFresh, Op::Cont], vec![Op::SwitchFlow("f1".into()), Op::Cont, Op::SwitchDefault, Op::Cont]];
     if let Some(k) = prog.plain_knots.first() {
         v.push(vec![Op::ChoosePath(k.clone(), true), Op::Cont]);
@@ -373,7 +384,12 @@ pub fn corpus_mutant_space(n_files: usize, max_tokens: usize) -> Vec<(String, St
 }
 
 fn all_cases(tier: Tier) -> (Vec<Case>, usize) {
+    LIGHT_PROBES.store(tier == Tier::Quick, std::sync::atomic::Ordering::Relaxed);
     let mut v = expression_cases();
+    if tier == Tier::Quick {
+        // reduced operand alphabet: without the plain int 1 and the empty string
+        v.retain(|c| !c.id.split('/').skip(3).any(|o| o == "1" || o == "\"\""));
+    }
     v.extend(statement_cases());
     let base = v.len();
     let (nf, mt) = match tier {
